@@ -97,6 +97,9 @@ func reportFailure(t *testing.T, prop string) {
 	}
 	f := lastFail
 	lastFail = nil
+	if f == nil && directViolated {
+		return // already recorded by violate()
+	}
 	if f == nil {
 		stats.C.Violate(stats.Violation{Property: prop, Rule: "unclassified", Detail: "test " + t.Name() + " failed without a recorded counterexample (see log)"})
 		return
@@ -121,8 +124,11 @@ func writeReplay(prop string, f *failure) string {
 	return p
 }
 
+var directViolated bool
+
 // direct violation (outside rapid): recorded and the test is failed.
 func violate(t *testing.T, prop string, f failure) {
+	directViolated = true
 	stats.C.Violate(stats.Violation{Property: prop, Rule: f.Rule, Detail: f.Detail, Signature: f.Sig, Replay: writeReplay(prop, &f)})
 	t.Errorf("VERIF-FAIL rule=%s: %s", f.Rule, f.Detail)
 }
